@@ -87,6 +87,8 @@ def groups(tier, seed):
         for mode in ('dfs dockerignore', 'dockerignore', 'dfs hgignore', 'hgignore bfs', 'dfs gitignore', 'gitignore', 'symlinks dfs', 'dfs archives'):
             for rd in ('sorted', 'rev'):
                 yield {'kind': 'location', 'root': root, 'mode': mode, 'rd': rd}
+    yield {'kind': 'odd-location'}
+    yield {'kind': 'dimensions'}
     for cls in ('is_archive', 'is_audio', 'is_book', 'is_doc', 'is_font', 'is_image', 'is_source', 'is_video'):
         yield {'kind': 'extclass', 'cls': cls, 'override': False}
         yield {'kind': 'extclass', 'cls': cls, 'override': True}
@@ -466,6 +468,48 @@ def eval_group(env, group, tier):
                     isempty = (len(os.listdir(full)) == 0) if stat.S_ISDIR(st.st_mode) else st.st_size == 0
                     exp[shown] = (n, ext, d, os.path.realpath(full), os.path.realpath(dp), b(n.startswith('.')), b(isempty), ext, d, d)
             row_outcomes(group, rows, exp, cols, outs, 'location-' + spelling)
+        elif kind == 'odd-location':
+            # entries below directories whose names are no valid UTF-8
+            broot = os.fsencode(root)
+            for d in (b'a\xff', b'b\xfe\xfd', b'plain'):
+                os.makedirs(os.path.join(broot, d, b'in'))
+                open(os.path.join(broot, d, b'x'), 'w').close()
+                open(os.path.join(broot, d, b'in', b'y'), 'w').close()
+            for frm in ('.', os.fsdecode(broot)):
+                for mode in ('', ' dfs'):
+                    o = env.run(['path, abspath, absdir, name from %s%s into list' % ("'" + frm + "'", mode)], cwd=root)
+                    rws = o.rows(4) or []
+                    lossy = lambda b_: b_.decode('utf-8', 'replace')
+                    want = []
+                    for dp, dns, fns in os.walk(broot):
+                        for n in dns + fns:
+                            full = os.path.join(dp, n)
+                            shown = (frm if frm != '.' else '.') + lossy(full[len(broot):])
+                            want.append((shown, lossy(os.path.realpath(full) if not os.path.islink(full) else full), lossy(os.path.realpath(dp)), lossy(n)))
+                    bad = sorted(set(map(tuple, rws)) ^ set(want))
+                    r = {'case': {'group': {'kind': 'odd-location'}, 'row': frm[:1] + mode}, 'layer': 'odd-location', 'nt': True, 'trans': len(want)}
+                    if o.rc != 0 or o.err or sorted(map(tuple, rws)) != sorted(want):
+                        r.update(status='viol', cls='location-below-non-utf8-directory', sig=('oddloc',), detail={'from': frm, 'mode': mode, 'differs': [list(x) for x in bad[:4]], 'err': o.brief()['err']})
+                    else:
+                        r.update(status='ok', sig=('oddloc', len(want)))
+                    outs.append(r)
+        elif kind == 'dimensions':
+            import struct as _st
+            png = lambda w, h: b'\x89PNG\r\n\x1a\n' + b'\x00\x00\x00\rIHDR' + _st.pack('>II', w, h) + b'\x08\x02\x00\x00\x00' + b'\x00' * 4
+            gif = lambda w, h: b'GIF89a' + _st.pack('<HH', w, h) + b'\x00\x00\x00' + b';'
+            bmp = lambda w, h: b'BM' + _st.pack('<IHHI', 54, 0, 0, 54) + _st.pack('<IiiHHIIiiII', 40, w, h, 1, 24, 0, 0, 0, 0, 0, 0)
+            svg = lambda w, h: ('<svg xmlns="http://www.w3.org/2000/svg" width="%d" height="%d"></svg>' % (w, h)).encode()
+            tree, exp = {}, {}
+            for ext, mk in (('png', png), ('gif', gif), ('bmp', bmp), ('svg', svg)):
+                for w, h in ((30, 20), (20, 30), (1, 1000), (640, 480)):
+                    n = 'i%dx%d.%s' % (w, h, ext)
+                    tree[n] = F(data=mk(w, h))
+                    exp[n] = (str(w), str(h))
+            tree['none.txt'] = F(3)
+            exp['none.txt'] = ('', '')
+            core.materialise(root, tree)
+            rows = query_rows(env, root, ['width', 'height'])
+            row_outcomes(group, rows, exp, ['width', 'height'], outs, 'dimensions')
         elif kind == 'extclass':
             cls = group['cls']
             conf0 = open(env.config_path()).read()
